@@ -10,6 +10,7 @@ from typing import (
     Optional,
     Pattern,
     Sequence,
+    Set,
     Tuple,
     Union,
 )
@@ -636,6 +637,8 @@ class ObjectMethod(DeserializationMethod):
                 requiring = sorted(field.required_by & data.keys())
                 error = ValidationError([self.missing + f" (required by {requiring})"])
                 field_errors = set_child_error(field_errors, field.alias, error)
+        # aggregate fields whose value is invalid (validators depending on them cannot run)
+        invalid_aggregates: Set[str] = set()
         if self.aggregate_fields:
             remain = data.keys() - self.all_aliases
             for flattened_field in self.flattened_fields:
@@ -655,6 +658,7 @@ class ObjectMethod(DeserializationMethod):
                         field_errors = update_children_errors(
                             field_errors, err.children
                         )
+                        invalid_aggregates.add(flattened_field.name)
             for pattern_field in self.pattern_fields:
                 matched: dict = {
                     key: data[key] for key in remain if pattern_field.pattern.match(key)
@@ -670,6 +674,7 @@ class ObjectMethod(DeserializationMethod):
                         field_errors = update_children_errors(
                             field_errors, err.children
                         )
+                        invalid_aggregates.add(pattern_field.name)
             if self.additional_field is not None:
                 additional: dict = {key: data[key] for key in remain}
                 try:
@@ -682,6 +687,7 @@ class ObjectMethod(DeserializationMethod):
                         field_errors = update_children_errors(
                             field_errors, err.children
                         )
+                        invalid_aggregates.add(self.additional_field.name)
             elif remain:
                 if not self.additional_properties:
                     for key in remain:
@@ -705,7 +711,7 @@ class ObjectMethod(DeserializationMethod):
         if self.validators:
             init = None
             # field_errors is keyed by aliases, validators dependencies are field names
-            invalid_names = (
+            invalid_names = invalid_aggregates | (
                 {f.name for f in self.fields if f.alias in field_errors}
                 if field_errors
                 else set()
@@ -726,7 +732,7 @@ class ObjectMethod(DeserializationMethod):
             if field_errors or errors:
                 error = ValidationError(errors or [], field_errors or {})
                 invalid_fields = self.post_init_modified
-                if field_errors:
+                if invalid_names:
                     invalid_fields = invalid_fields | invalid_names
                 try:
                     validate(
